@@ -55,6 +55,11 @@ static void setupSimFiles() {
   for (int i = 0; i < 8; i++) {
     std::string c;
     for (int k = 0; k < 5 + i; k++) c.push_back((char)(i * 37 + k * 11 + 128 * (k & 1)));
+    if (i == 3 || i == 6) {   // two input files do not exist: a read from them sees end of input at once
+      g_simin[i].clear();
+      unlink(("simin" + std::to_string(i)).c_str());
+      continue;
+    }
     g_simin[i] = c;
     std::ofstream f("simin" + std::to_string(i), std::ios::binary);
     f << c;
